@@ -6,12 +6,14 @@ package main
 
 import (
 	"fmt"
+	"math/big"
 	"strconv"
 	"strings"
 
 	"elaverif/harness/hx"
 	"elaverif/harness/regnet"
 
+	"github.com/elastos/Elastos.ELA/blockchain"
 	"github.com/elastos/Elastos.ELA/common"
 	"github.com/elastos/Elastos.ELA/core/types"
 )
@@ -25,22 +27,25 @@ var failedSwitch bool
 
 func coinbaseOK(b *types.Block) bool { return !sim.IsBad(b) }
 
-// validHeight: height of b if b and all its ancestors were delivered and are not bad blocks
-// (regnet.Sim.IsBad: the only way the generator makes a block invalid), else -1.
-func validHeight(b *types.Block) int {
+// validWork: cumulative work (Σ CalcWork(bits), genesis excluded) of the chain ending in b if b and all
+// its ancestors were delivered and are not bad blocks (regnet.Sim.IsBad: the only way the generator
+// makes a block invalid), else nil.
+func validWork(b *types.Block) *big.Int {
+	sum := new(big.Int)
 	for cur := b; ; {
 		if cur.Hash() == sim.N.Genesis.Hash() {
-			return int(b.Height)
+			return sum
 		}
 		if !coinbaseOK(cur) {
-			return -1
+			return nil
+		}
+		sum.Add(sum, blockchain.CalcWork(cur.Bits))
+		if cur.Header.Previous == sim.N.Genesis.Hash() {
+			return sum
 		}
 		p, ok := delivered[cur.Header.Previous]
 		if !ok {
-			if cur.Header.Previous == sim.N.Genesis.Hash() {
-				return int(b.Height)
-			}
-			return -1
+			return nil
 		}
 		cur = p
 	}
@@ -53,10 +58,14 @@ func exec(t []string) string {
 		delivered = map[common.Uint256]*types.Block{}
 		failedSwitch = false
 		return sim.Exec(t)
-	case "deliver":
+	case "deliver", "deliverw":
 		before, _ := sim.N.Tip()
 		out := sim.Exec(t)
-		bs, _ := regnet.ParseBlock(t[1:])
+		spec := t[1:]
+		if t[0] == "deliverw" {
+			spec = t[3:]
+		}
+		bs, _ := regnet.ParseBlock(spec)
 		blk := sim.N.ByID(bs.ID)
 		delivered[blk.Hash()] = blk
 		after, ah := sim.N.Tip()
@@ -74,12 +83,18 @@ func exec(t []string) string {
 				Detail: fmt.Sprintf("ProcessBlock returned an error (%s) but the tip moved from %s to %s (height %d)", sim.LastErr, regnet.ID(before), regnet.ID(after), ah)}
 			return out
 		}
-		// (3) no known valid chain is higher (not judged after a failed switch: consequence of (2))
+		// (3) no known valid chain carries more work (not judged after a failed switch: consequence of (2))
 		if !failedSwitch {
+			tipWork := new(big.Int)
+			if tb := sim.N.Block(after); tb != nil && after != sim.N.Genesis.Hash() {
+				if w := validWork(tb); w != nil {
+					tipWork = w
+				}
+			}
 			for _, b := range delivered {
-				if vh := validHeight(b); vh > int(ah) {
-					pending = &hx.Violation{Kind: "higher-valid-chain-known",
-						Detail: fmt.Sprintf("valid block %s at height %d, tip height %d", regnet.ID(b.Hash()), vh, ah)}
+				if w := validWork(b); w != nil && w.Cmp(tipWork) > 0 {
+					pending = &hx.Violation{Kind: "higher-work-valid-chain-known",
+						Detail: fmt.Sprintf("valid block %s at height %d with cumulative work %v, tip height %d with work %v", regnet.ID(b.Hash()), b.Height, w, ah, tipWork)}
 					return out
 				}
 			}
@@ -92,11 +107,12 @@ func exec(t []string) string {
 func oracle(t []string, out string) *hx.Violation { return pending }
 
 func nontrivial(t []string, out string) bool {
-	return t[0] == "deliver" && (strings.HasPrefix(out, "side") || strings.HasPrefix(out, "orphan") || strings.HasPrefix(out, "err"))
+	return strings.HasPrefix(t[0], "deliver") && (strings.HasPrefix(out, "side") || strings.HasPrefix(out, "orphan") || strings.HasPrefix(out, "err"))
 }
 
 func gen(g *hx.Gen) {
 	witness(g)
+	witnessWork(g)
 	nh := g.N(40, 300)
 	for i := 0; i < nh; i++ {
 		tree(g, i)
@@ -127,10 +143,45 @@ func witness(g *hx.Gen) {
 	h.Emit("obs c h")
 }
 
+// witnessWork is the "most work, not longest" scenario (retargeting regnet: a difficulty retarget every
+// 10 blocks): trunk t1..t7, branch X = 3 quick blocks (x10 is harder), branch Y = a long pause and then
+// 6 blocks (y10.. are four times easier). Y is longer but lighter: the node must stay on X until
+// y14 makes Y heavier.
+func witnessWork(g *hx.Gen) {
+	sim.Retarget = true
+	defer func() { sim.Retarget = false }()
+	h := &regnet.HistGen{S: sim, R: g.R, Emit: g.Emit}
+	h.Start()
+	trunk := &regnet.Branch{}
+	for i := 0; i < 7; i++ {
+		b := h.Block(trunk, nil, regnet.MineOpts{Miner: 1})
+		trunk = regnet.Extend(trunk, b)
+		h.Deliver(b)
+	}
+	x := trunk
+	for i := 0; i < 3; i++ {
+		b := h.Block(x, nil, regnet.MineOpts{Miner: 2})
+		x = regnet.Extend(x, b)
+		h.Deliver(b)
+	}
+	y := trunk
+	for i := 0; i < 7; i++ {
+		if i == 0 {
+			h.Pause = 1000
+		}
+		b := h.Block(y, nil, regnet.MineOpts{Miner: 3})
+		y = regnet.Extend(y, b)
+		h.Deliver(b)
+	}
+	h.Emit("obs c h")
+}
+
 // tree builds a random block tree (≤ 30 blocks, forks ≤ 6 deep), optionally with one invalid block in
 // the branch that ends up heaviest, and delivers it in a random order.
 func tree(g *hx.Gen, idx int) {
 	r := g.R
+	sim.Retarget = r.Chance(35)
+	defer func() { sim.Retarget = false }()
 	h := &regnet.HistGen{S: sim, R: r, Emit: g.Emit}
 	h.Start()
 	type node struct {
@@ -141,6 +192,9 @@ func tree(g *hx.Gen, idx int) {
 	trunk := &regnet.Branch{}
 	var order []*types.Block
 	tl := 2 + r.Intn(6)
+	if sim.Retarget {
+		tl = 5 + r.Intn(12) // long enough to cross a retarget boundary
+	}
 	for i := 0; i < tl; i++ {
 		b := h.HonestBlock(trunk, 2)
 		trunk = regnet.Extend(trunk, b)
@@ -157,7 +211,13 @@ func tree(g *hx.Gen, idx int) {
 			depth = len(trunk.Blocks)
 		}
 		br := regnet.Fork(trunk, len(trunk.Blocks)-depth)
+		if sim.Retarget && r.Chance(60) {
+			h.Pause = uint32(r.Pick(5, 30, 200, 1000)) // the branch starts after a pause: its retarget differs
+		}
 		extra := r.Intn(3) // 0: equal work, >0: heavier
+		if sim.Retarget {
+			extra = r.Intn(6)
+		}
 		length := depth + extra
 		bad := -1
 		if extra > 0 && r.Chance(55) {
